@@ -2128,6 +2128,15 @@ class CatchExceptionDataset(Dataset):
             LOG.info(f'{self.__class__.__name__} filtered {catched_count} of {total_count} examples (catched expections: {types}).')
 
 
+class _FilteredExample:
+    """
+    Marker that the prefetch workers return instead of an example whose
+    evaluation raised a catched exception. A module level class keeps its
+    identity when it is pickled (process based backends), `object()` doesn't.
+    """
+    pass
+
+
 class PrefetchDataset(Dataset):
     def __init__(
             self,
@@ -2223,7 +2232,7 @@ class PrefetchDataset(Dataset):
             else:
                 catch_filter_exception = self.catch_filter_exception
 
-            unique_object = object()
+            unique_object = _FilteredExample
 
             if with_key:
                 def catcher(key):
